@@ -78,6 +78,15 @@ CHECKS["C03"] = dict(runs=_rib(["C03:"], _RQ, _RT) + [dict(pkg="rib", harness="V
     assumptions=["as C01"],
     level_text="Same exploration as C01, checking DELETE verdicts against referrers found by scanning the installed entries and the counter==referrers invariant after every operation and after Flush.", level_note=_RIBNOTE)
 
+CHECKS["C12"] = dict(
+    runs=[dict(pkg="server", harness="VfC12_malformed", reach=["end", "rejected", "delete-of-absent-key"],
+               bounds="one operation sent by the elected primary through doModify/modifyEntry into the real RIB: 25 malformed shapes (nil at every level of every entry kind, zero ids, empty group, zero/body-less members, 11 invalid prefixes, every out-of-range 64-bit label, unknown group instance) x any operation type number; plus valid content under an arbitrary unknown/empty instance name or an undefined operation type")]
+         + _rib(["C12:"], _RQ, _RT),
+    assumptions=["what happens inside the real candidateRIB (protomap/ytypes) is replaced by its model, which returns an error or a value and never panics; a concrete probe shows the real pipeline panics for undefined enum numbers such as encapsulate_header=99 - outside this check (DESIGN.md C12)",
+                 "nil elements inside repeated fields are not wire-representable and are excluded"],
+    level_text="Bounded symbolic execution of the operation path with malformed content at every level: no path panics, every malformed operation is answered FAILED or by a clean RPC error, and a structural before/after comparison of tables, counters and held set shows no effect.",
+    level_note=_RIBNOTE)
+
 NOT_APPLICABLE = {
     "C19": "whole compliance-suite runs over in-memory gRPC against wrapped servers in every order: a whole-program execution through gRPC, testing and reflection; no bounded symbolic encoding within reach (DESIGN.md §8)",
 }
